@@ -1,38 +1,32 @@
----- MODULE NDSort ----
-EXTENDS Dominance, TLC, FiniteSetsExt
-CONSTANTS MaxN
-VARIABLES pop, ranks, phase
-vars == <<pop, ranks, phase>>
+------------------------------- MODULE NDSort -------------------------------
+(* C02 -- Selector.fast_nondominated_sorting as a state machine: Pairwise (the i<j pass fills counters and
+   dominated-lists), then one Peel action per front.  Checked against the declarative rank characterisation
+   for every population (as a sequence: every input order) over the bounded domain.                        *)
+EXTENDS SortOps
+CONSTANTS M, Vals, Marks, MaxN
+Vec == [c : [1..M -> Vals], m : Marks]
 Pops == UNION { [1..k -> Vec] : k \in 1..MaxN }
-Dominators(P, i) == { j \in DOMAIN P : ParetoCmp(P[j], P[i]) = 1 }
-\* the property: characterisation of the rank function
-RankOK(P, rk) == /\ DOMAIN rk = DOMAIN P
-                 /\ \A i \in DOMAIN P :
-                      rk[i] = IF Dominators(P, i) = {} THEN 1
-                              ELSE 1 + Max({ rk[j] : j \in Dominators(P, i) })
-\* ---- implementation-shaped: pairwise pass for i<j only, then peeling ----
-Flag(P, i, j) == ParetoScan(P[i], P[j])
-Counter0(P) == [ q \in DOMAIN P |->
-   Cardinality({ i \in DOMAIN P : i < q /\ Flag(P, i, q) = 1 }) +
-   Cardinality({ j \in DOMAIN P : q < j /\ Flag(P, q, j) = 2 }) ]
-DomList(P) == [ p \in DOMAIN P |->
-   { j \in DOMAIN P : p < j /\ Flag(P, p, j) = 1 } \cup { i \in DOMAIN P : i < p /\ Flag(P, i, p) = 2 } ]
-RECURSIVE Peel(_, _, _, _, _)
-Peel(P, front, k, cnt, rk) ==
-  IF front = {} THEN rk
-  ELSE LET cnt2 == [ q \in DOMAIN P |-> cnt[q] - Cardinality({ p \in front : q \in DomList(P)[p] }) ]
-           nxt  == { q \in DOMAIN P : rk[q] = 0 /\ cnt2[q] = 0 /\ \E p \in front : q \in DomList(P)[p] }
-       IN Peel(P, nxt, k + 1, cnt2, [ q \in DOMAIN P |-> IF q \in nxt THEN k + 1 ELSE rk[q] ])
-FastNDS(P) == LET c0 == Counter0(P)
-                  f1 == { q \in DOMAIN P : c0[q] = 0 }
-              IN Peel(P, f1, 1, c0, [ q \in DOMAIN P |-> IF q \in f1 THEN 1 ELSE 0 ])
-Init == pop \in Pops /\ ranks = <<>> /\ phase = "unsorted"
-Sort == phase = "unsorted" /\ ranks' = FastNDS(pop) /\ phase' = "sorted" /\ UNCHANGED pop
-Next == Sort
+VARIABLES pop, phase, front, k, cnt, rk
+vars == <<pop, phase, front, k, cnt, rk>>
+Init == /\ pop \in Pops /\ phase = "unsorted" /\ front = {} /\ k = 0
+        /\ cnt = [ q \in DOMAIN pop |-> 0 ] /\ rk = [ q \in DOMAIN pop |-> 0 ]
+Pairwise == /\ phase = "unsorted"
+            /\ cnt' = Counter0(pop)
+            /\ front' = { q \in DOMAIN pop : cnt'[q] = 0 }
+            /\ rk' = [ q \in DOMAIN pop |-> IF q \in front' THEN 1 ELSE 0 ]
+            /\ k' = 1 /\ phase' = "peeling" /\ UNCHANGED pop
+PeelFront == /\ phase = "peeling" /\ front # {}
+             /\ LET s == PeelStep(pop, front, k, cnt, rk) IN
+                front' = s.front /\ k' = s.k /\ cnt' = s.cnt /\ rk' = s.rk
+             /\ UNCHANGED <<pop, phase>>
+Finish == /\ phase = "peeling" /\ front = {} /\ phase' = "sorted" /\ UNCHANGED <<pop, front, k, cnt, rk>>
+Next == Pairwise \/ PeelFront \/ Finish
 Spec == Init /\ [][Next]_vars
 Sorted == phase = "sorted"
-InvRank      == Sorted => RankOK(pop, ranks)
-InvAllRanked == Sorted => \A i \in DOMAIN pop : ranks[i] >= 1
-InvFront1    == Sorted => { i \in DOMAIN pop : ranks[i] = 1 } = { i \in DOMAIN pop : Dominators(pop, i) = {} }
-InvFrontsND  == Sorted => \A i, j \in DOMAIN pop : ranks[i] = ranks[j] => ParetoCmp(pop[i], pop[j]) = 0
-====
+InvRank      == Sorted => RankOK(pop, rk) /\ rk = TrueRank(pop) /\ rk = FastNDS(pop)
+InvAllRanked == Sorted => \A i \in DOMAIN pop : rk[i] >= 1
+InvFront1    == Sorted => { i \in DOMAIN pop : rk[i] = 1 } = { i \in DOMAIN pop : Dominators(pop, i) = {} }
+InvFrontsND  == Sorted => \A i, j \in DOMAIN pop : rk[i] = rk[j] => ParetoCmp(pop[i], pop[j]) = 0
+\* while peeling: every assigned rank is already final and counters never go negative
+InvPartial   == phase = "peeling" => \A i \in DOMAIN pop : (rk[i] # 0 => rk[i] = TrueRank(pop)[i]) /\ cnt[i] >= 0
+=============================================================================
